@@ -1280,6 +1280,14 @@ def arr_concat(parts):
 
     def f(i):
         ci = concrete_int(i)
+        if ci is not None:
+            # concrete position and concrete part lengths up to it: the part is known
+            for k in range(len(ps)):
+                lo_, hi_ = concrete_int(offs[k]), concrete_int(offs[k + 1])
+                if lo_ is None or hi_ is None:
+                    break
+                if lo_ <= ci < hi_:
+                    return fs[k](ci - lo_)
         out = fs[-1](binop('Sub', i, offs[-2]))
         for k in range(len(ps) - 2, -1, -1):
             bound = offs[k + 1]
